@@ -1,25 +1,615 @@
-// C09 harness (skeleton)
+// C09 harness: lockstep histories of Set/Add/Delete/Commit/reopen (+ Get/Has/Stream/Root/WasRestored reads) on the
+// real ads.Map / ads.Set over one mapdb; every call's result, and Size()/WasRestoredFromStorage() after every call,
+// are written as Coq terms for Verif.C09_ADS.Corr. A Go-side oracle (plain Go map + committed snapshot; independent
+// of the Coq model) judges the property itself, including the root classes (contents <-> Root() must be a bijection
+// over everything explored).
 package main
 
 import (
+	"bytes"
+	"crypto/sha256"
+	"encoding/hex"
+	"encoding/json"
+	"flag"
+	"fmt"
 	"os"
+	"sort"
+	"strings"
 
 	"github.com/iotaledger/hive.go/ads"
 	"github.com/iotaledger/hive.go/kvstore"
+	"github.com/iotaledger/hive.go/kvstore/mapdb"
 	"github.com/iotaledger/hive.go/serializer/v2/typeutils"
+
+	"verif/harness/vx"
 )
 
-func keyToBytes(k string) ([]byte, error)          { return []byte(k), nil }
-func keyFromBytes(b []byte) (string, int, error)   { return string(b), len(b), nil }
-func valToBytes(v []byte) ([]byte, error)          { return v, nil }
-func valFromBytes(b []byte) ([]byte, int, error)   { return b, len(b), nil }
+func keyToBytes(k string) ([]byte, error)        { return []byte(k), nil }
+func keyFromBytes(b []byte) (string, int, error) { return string(b), len(b), nil }
+func valToBytes(v []byte) ([]byte, error)        { return v, nil }
+func valFromBytes(b []byte) ([]byte, int, error) { return b, len(b), nil }
 
 func newMap(store kvstore.KVStore) ads.Map[[32]byte, string, []byte] {
 	return ads.NewMap[[32]byte](store, typeutils.ByteArray32ToBytes, typeutils.ByteArray32FromBytes, keyToBytes, keyFromBytes, valToBytes, valFromBytes)
 }
 
+func newSet(store kvstore.KVStore) ads.Set[[32]byte, string] {
+	return ads.NewSet[[32]byte](store, typeutils.ByteArray32ToBytes, typeutils.ByteArray32FromBytes, keyToBytes, keyFromBytes)
+}
+
+// ---------- events ----------
+
+type ev struct {
+	Op   string `json:"op"`            // set add delete commit reopen get has stream keys root restored
+	Key  string `json:"key,omitempty"` // hex
+	Val  string `json:"val,omitempty"` // hex
+	VNil bool   `json:"vnil,omitempty"`
+}
+
+func (e ev) key() string { b, _ := hex.DecodeString(e.Key); return string(b) }
+func (e ev) val() []byte {
+	if e.VNil {
+		return nil
+	}
+	b, _ := hex.DecodeString(e.Val)
+	if b == nil {
+		b = []byte{}
+	}
+	return b
+}
+
+func (e ev) coq() string {
+	k := vx.Bytes([]byte(e.key()))
+	switch e.Op {
+	case "set":
+		return fmt.Sprintf("ESet %s %s", k, vx.Opt(!e.VNil, vx.Bytes(e.val())))
+	case "add":
+		return "EAdd " + k
+	case "delete":
+		return "EDelete " + k
+	case "commit":
+		return "ECommit"
+	case "reopen":
+		return "EReopen"
+	case "get":
+		return "EGet " + k
+	case "has":
+		return "EHas " + k
+	case "stream":
+		return "EStream"
+	case "keys":
+		return "EStreamKeys"
+	case "root":
+		return "ERoot"
+	case "restored":
+		return "ERestored"
+	}
+	panic("bad op " + e.Op)
+}
+
+func mkSet(k string, v []byte) ev {
+	if v == nil {
+		return ev{Op: "set", Key: hex.EncodeToString([]byte(k)), VNil: true}
+	}
+	return ev{Op: "set", Key: hex.EncodeToString([]byte(k)), Val: hex.EncodeToString(v)}
+}
+func mkK(op, k string) ev { return ev{Op: op, Key: hex.EncodeToString([]byte(k))} }
+func mk(op string) ev     { return ev{Op: op} }
+
+// ---------- the instance under test ----------
+
+type kv struct {
+	k string
+	v []byte
+}
+
+type inst struct {
+	m ads.Map[[32]byte, string, []byte]
+	s ads.Set[[32]byte, string]
+}
+
+func open(store kvstore.KVStore, set bool) *inst {
+	if set {
+		return &inst{s: newSet(store)}
+	}
+	return &inst{m: newMap(store)}
+}
+
+func (i *inst) Root() [32]byte {
+	if i.s != nil {
+		return i.s.Root()
+	}
+	return i.m.Root()
+}
+func (i *inst) Size() int {
+	if i.s != nil {
+		return i.s.Size()
+	}
+	return i.m.Size()
+}
+func (i *inst) Restored() bool {
+	if i.s != nil {
+		return i.s.WasRestoredFromStorage()
+	}
+	return i.m.WasRestoredFromStorage()
+}
+func (i *inst) Commit() error {
+	if i.s != nil {
+		return i.s.Commit()
+	}
+	return i.m.Commit()
+}
+func (i *inst) Delete(k string) (bool, error) {
+	if i.s != nil {
+		return i.s.Delete(k)
+	}
+	return i.m.Delete(k)
+}
+func (i *inst) Has(k string) (bool, error) {
+	if i.s != nil {
+		return i.s.Has(k)
+	}
+	return i.m.Has(k)
+}
+
+// ---------- root classes ----------
+
+type rootClasses struct {
+	ids        map[[32]byte]int    // real root -> class number (first appearance, from 1)
+	byContents map[string][32]byte // oracle: canonical reference contents -> real root
+	byRoot     map[[32]byte]string // oracle: real root -> canonical reference contents
+}
+
+func newRootClasses() *rootClasses {
+	return &rootClasses{ids: map[[32]byte]int{}, byContents: map[string][32]byte{}, byRoot: map[[32]byte]string{}}
+}
+
+func (rc *rootClasses) id(r [32]byte) int {
+	if x, ok := rc.ids[r]; ok {
+		return x
+	}
+	rc.ids[r] = len(rc.ids) + 1
+	return len(rc.ids)
+}
+
+func canon(ref map[string][]byte) string {
+	keys := make([]string, 0, len(ref))
+	for k := range ref {
+		keys = append(keys, k)
+	}
+	sort.Strings(keys)
+	var sb strings.Builder
+	for _, k := range keys {
+		fmt.Fprintf(&sb, "%d:%x=%d:%x;", len(k), k, len(ref[k]), ref[k])
+	}
+	return sb.String()
+}
+
+// judge returns "" or what is wrong: equal contents must give equal roots, different contents different roots.
+func (rc *rootClasses) judge(ref map[string][]byte, r [32]byte) string {
+	c := canon(ref)
+	if r0, ok := rc.byContents[c]; ok && r0 != r {
+		return fmt.Sprintf("contents {%s} had root %x earlier, now %x", c, r0[:4], r[:4])
+	}
+	if c0, ok := rc.byRoot[r]; ok && c0 != c {
+		return fmt.Sprintf("root %x stands for contents {%s} and {%s}", r[:4], c0, c)
+	}
+	rc.byContents[c] = r
+	rc.byRoot[r] = c
+	return ""
+}
+
+// ---------- running one history ----------
+
+type obs struct {
+	out      string
+	size     int
+	restored bool
+}
+
+func copyMap(m map[string][]byte) map[string][]byte {
+	c := make(map[string][]byte, len(m))
+	for k, v := range m {
+		c[k] = v
+	}
+	return c
+}
+
+const sigDirtyReopen = "dirty-reopen-keeps-size-and-rawkeys"
+
+// runHistory runs h on the real code; returns the observations and the oracle's complaints. known: the listed finding
+// showed (after a reopen that dropped uncommitted changes Size() differs from the number of keys the instance has).
+func runHistory(set bool, h []ev, rc *rootClasses) (res []obs, fails []string, roots int, known bool) {
+	store := mapdb.NewMapDB()
+	in := open(store, set)
+	ref := map[string][]byte{}      // the plain map
+	var committed map[string][]byte // contents at the last Commit (nil: never committed)
+	dirty, tainted := false, false  // tainted: a reopen dropped uncommitted changes (size / raw keys are written through; outside the property)
+	fail := func(i int, f string, a ...any) {
+		fails = append(fails, fmt.Sprintf("step %d (%s): ", i, h[i].Op)+fmt.Sprintf(f, a...))
+	}
+	for i, e := range h {
+		out := "CNone"
+		func() {
+			defer func() {
+				if p := recover(); p != nil {
+					out = "CErr"
+					fail(i, "panic: %v", p)
+				}
+			}()
+			k := e.key()
+			chk := func(err error) {
+				if err != nil {
+					out = "CErr"
+					fail(i, "error: %v", err)
+				}
+			}
+			switch e.Op {
+			case "set":
+				v := e.val()
+				chk(in.m.Set(k, v))
+				if v == nil {
+					v = []byte{}
+				}
+				if old, ok := ref[k]; !ok || !bytes.Equal(old, v) {
+					dirty = true
+				}
+				ref[k] = v
+			case "add":
+				chk(in.s.Add(k))
+				if _, ok := ref[k]; !ok {
+					dirty = true
+				}
+				ref[k] = []byte{}
+			case "delete":
+				d, err := in.Delete(k)
+				chk(err)
+				_, was := ref[k]
+				if err == nil {
+					out = "CBool " + vx.Bool(d)
+					if d != was {
+						fail(i, "Delete(%q) = %v, key present = %v", k, d, was)
+					}
+				}
+				if was {
+					dirty = true
+				}
+				delete(ref, k)
+			case "commit":
+				chk(in.Commit())
+				committed = copyMap(ref)
+				dirty = false
+			case "reopen":
+				old := in.Root()
+				in = open(store, set)
+				if dirty {
+					tainted = true
+					ref = copyMap(committed)
+					if ref == nil {
+						ref = map[string][]byte{}
+					}
+					dirty = false
+				} else if r := in.Root(); r != old {
+					fail(i, "reopen without uncommitted changes: Root %x became %x", old[:4], r[:4])
+				}
+			case "get":
+				v, ex, err := in.m.Get(k)
+				chk(err)
+				if err == nil {
+					out = "CGet " + vx.Opt(ex, vx.Bytes(v))
+					want, was := ref[k]
+					if ex != was || (ex && !bytes.Equal(v, want)) {
+						fail(i, "Get(%q) = %x,%v; plain map has %x,%v", k, v, ex, want, was)
+					}
+				}
+			case "has":
+				b, err := in.Has(k)
+				chk(err)
+				if err == nil {
+					out = "CBool " + vx.Bool(b)
+					if _, was := ref[k]; b != was {
+						fail(i, "Has(%q) = %v; plain map %v", k, b, was)
+					}
+				}
+			case "stream", "keys":
+				var got []kv
+				var err error
+				if e.Op == "stream" {
+					err = in.m.Stream(func(k string, v []byte) error { got = append(got, kv{k, v}); return nil })
+				} else {
+					err = in.s.Stream(func(k string) error { got = append(got, kv{k, []byte{}}); return nil })
+				}
+				chk(err)
+				if err == nil {
+					terms := make([]string, len(got))
+					for j, x := range got {
+						if e.Op == "stream" {
+							terms[j] = vx.Pair(vx.Bytes([]byte(x.k)), vx.Opt(x.v != nil, vx.Bytes(x.v)))
+						} else {
+							terms[j] = vx.Bytes([]byte(x.k))
+						}
+					}
+					if e.Op == "stream" {
+						out = "CStream " + vx.List(terms)
+					} else {
+						out = "CKeys " + vx.List(terms)
+					}
+					if !tainted {
+						seen := map[string]bool{}
+						for _, x := range got {
+							want, was := ref[x.k]
+							if !was || seen[x.k] || x.v == nil || !bytes.Equal(want, x.v) {
+								fail(i, "Stream delivered %q=%x (nil=%v); plain map has %x,%v; duplicate=%v", x.k, x.v, x.v == nil, want, was, seen[x.k])
+							}
+							seen[x.k] = true
+						}
+						if len(seen) != len(ref) {
+							fail(i, "Stream delivered %d distinct keys, plain map has %d", len(seen), len(ref))
+						}
+					}
+				}
+			case "root":
+				r := in.Root()
+				roots++
+				out = fmt.Sprintf("CRoot %d%%positive", rc.id(r))
+				if why := rc.judge(ref, r); why != "" {
+					fail(i, "root classes: %s", why)
+				}
+			case "restored":
+				out = "CBool " + vx.Bool(in.Restored())
+			default:
+				panic("bad op")
+			}
+		}()
+		o := obs{out: out}
+		func() {
+			defer func() {
+				if p := recover(); p != nil {
+					fail(i, "panic in Size/WasRestoredFromStorage: %v", p)
+				}
+			}()
+			o.size, o.restored = in.Size(), in.Restored()
+		}()
+		if !tainted && o.size != len(ref) {
+			fail(i, "Size() = %d, plain map has %d keys", o.size, len(ref))
+		}
+		if tainted && o.size != len(ref) {
+			known = true
+		}
+		if o.restored != (committed != nil) {
+			fail(i, "WasRestoredFromStorage() = %v, a Commit happened before = %v", o.restored, committed != nil)
+		}
+		res = append(res, o)
+	}
+	return res, fails, roots, known
+}
+
+// ---------- generation ----------
+
+var pool []string // key pool; per history up to 6 of them
+var poolNote []string
+
+// crafted keys: 2-byte keys whose SHA-256 paths share leading bits (the trie then builds extension nodes)
+func initPool() {
+	pool = []string{"", "a", "ab", "b"}
+	ha := sha256.Sum256([]byte("a"))
+	first := map[[2]byte]string{}
+	var p, q, p8 string
+	var xs []string
+	for i := 0; i < 65536 && (p == "" || len(xs) < 2 || p8 == ""); i++ {
+		k := string([]byte{byte(i >> 8), byte(i)})
+		h := sha256.Sum256([]byte(k))
+		if h[0] == ha[0] && len(xs) < 2 {
+			xs = append(xs, k)
+		}
+		if p == "" {
+			if o, ok := first[[2]byte{h[0], h[1]}]; ok {
+				p, q = o, k
+			} else {
+				first[[2]byte{h[0], h[1]}] = k
+			}
+		} else if p8 == "" {
+			hp := sha256.Sum256([]byte(p))
+			if h[0] == hp[0] && h[1] != hp[1] && k != p && k != q {
+				p8 = k
+			}
+		}
+	}
+	if p == "" || len(xs) < 2 || p8 == "" {
+		vx.Die("could not craft prefix-sharing keys")
+	}
+	pool = append(pool, xs[0], xs[1], p, q, p8)
+	poolNote = []string{fmt.Sprintf("%x,%x share >=8 path bits with 'a'", xs[0], xs[1]), fmt.Sprintf("%x,%x share >=16 path bits, %x >=8 with them", p, q, p8)}
+}
+
+var values = [][]byte{nil, {}, {0}, {1}, {1, 2}, bytes.Repeat([]byte{255}, 33)}
+
+func genHistory(r *vx.Rng, set bool, n int) []ev {
+	nk := 1 + r.Intn(6)
+	perm := make([]string, len(pool))
+	copy(perm, pool)
+	for i := len(perm) - 1; i > 0; i-- {
+		j := r.Intn(i + 1)
+		perm[i], perm[j] = perm[j], perm[i]
+	}
+	keys := perm[:nk]
+	if r.Chance(1, 2) && nk >= 3 { // make sure the 16-bit pair is often there
+		keys[0], keys[1] = pool[6], pool[7]
+	}
+	nv := 2 + r.Intn(len(values)-1)
+	allowDirtyReopen := r.Chance(1, 4)
+	dirty, justCommitted := false, false
+	var h []ev
+	for len(h) < n {
+		k := vx.Pick(r, keys)
+		x := r.Intn(100)
+		if justCommitted && r.Chance(1, 2) {
+			x = 96
+		}
+		justCommitted = false
+		switch {
+		case x < 32:
+			if set {
+				h = append(h, mkK("add", k))
+			} else {
+				h = append(h, mkSet(k, values[r.Intn(nv)]))
+			}
+			dirty = true
+		case x < 50:
+			h = append(h, mkK("delete", k))
+			dirty = true
+		case x < 58:
+			if set {
+				h = append(h, mkK("has", k))
+			} else {
+				h = append(h, mkK("get", k))
+			}
+		case x < 65:
+			h = append(h, mkK("has", k))
+		case x < 71:
+			if set {
+				h = append(h, mk("keys"))
+			} else {
+				h = append(h, mk("stream"))
+			}
+		case x < 82:
+			h = append(h, mk("root"))
+		case x < 92:
+			h = append(h, mk("commit"))
+			dirty, justCommitted = false, true
+		case x < 94:
+			h = append(h, mk("restored"))
+		default:
+			if dirty && !allowDirtyReopen {
+				continue
+			}
+			h = append(h, mk("reopen"))
+			dirty = false
+		}
+	}
+	str := "stream"
+	if set {
+		str = "keys"
+	}
+	h = append(h, mk("root"), mk(str))
+	if r.Chance(1, 2) {
+		h = append(h, mk("commit"), mk("reopen"), mk("root"), mk(str))
+	}
+	return h
+}
+
+type dcase struct {
+	set bool
+	h   []ev
+	tag string
+}
+
+func directed() []dcase {
+	P, Q, P8, X1 := pool[6], pool[7], pool[8], pool[4]
+	return []dcase{
+		{false, []ev{mkSet("a", nil), mkSet("a", nil), mkSet("b", []byte{1}), mkK("has", "a"), mkK("get", "a"), mk("stream"), mk("root"), mkK("delete", "a"), mk("stream"), mk("root"), mkSet("a", nil), mk("commit"), mk("reopen"), mkK("has", "a"), mkK("get", "a"), mk("root"), mk("stream")}, "D09 (repaired): nil values"},
+		{false, []ev{mkSet("a", []byte{}), mkSet("b", []byte{1}), mk("root")}, "same contents as after D09 prefix, empty instead of nil"},
+		{false, []ev{mkSet("a", []byte{1}), mkSet("b", []byte{2}), mkSet("ab", []byte{}), mk("root"), mk("stream")}, "order 1"},
+		{false, []ev{mkSet("ab", []byte{}), mkSet("b", []byte{2}), mkSet("a", []byte{1}), mk("root"), mk("stream")}, "order 2"},
+		{false, []ev{mkSet("a", []byte{9}), mkSet("c", []byte{1}), mkSet("b", []byte{2}), mkK("delete", "c"), mkSet("a", []byte{1}), mkSet("ab", []byte{7}), mkK("delete", "ab"), mkSet("ab", []byte{}), mk("root"), mk("stream")}, "overwrite, delete, reinsert"},
+		{false, []ev{mkSet(P, []byte{1}), mkSet(Q, []byte{2}), mkSet(P8, []byte{3}), mkSet(X1, []byte{4}), mk("root"), mkK("delete", P), mk("root"), mkK("delete", P8), mk("root"), mk("commit"), mkK("delete", Q), mk("root"), mk("commit"), mk("reopen"), mk("root"), mk("stream")}, "prefix-sharing paths: extension nodes joined on delete"},
+		{false, []ev{mkSet(Q, []byte{2}), mkSet(X1, []byte{4}), mk("root"), mkSet(P8, []byte{3}), mk("root"), mkK("delete", P8), mkK("delete", Q), mk("root")}, "same contents by another route"},
+		{false, []ev{mk("restored"), mk("reopen"), mk("restored"), mk("commit"), mk("restored"), mk("reopen"), mk("root"), mkSet("", []byte{1}), mk("commit"), mkSet("", []byte{2}), mkSet("a", nil), mk("commit"), mk("reopen"), mkK("get", ""), mk("stream"), mk("root")}, "empty key, two commits, reopen"},
+		{false, []ev{mkSet("a", []byte{1}), mk("commit"), mkK("delete", "a"), mk("reopen"), mkK("has", "a"), mkK("delete", "a"), mk("stream"), mk("root"), mkSet("b", []byte{1}), mk("reopen"), mk("stream"), mk("root")}, "reopen dropping uncommitted changes (size/raw keys are written through)"},
+		{true, []ev{mkK("add", "a"), mkK("add", "a"), mkK("add", "b"), mkK("delete", "a"), mkK("delete", "a"), mkK("has", "a"), mk("keys"), mk("root"), mk("commit"), mk("reopen"), mk("keys"), mk("root"), mk("restored")}, "set flavour"},
+		{true, []ev{mkK("add", "b"), mk("root")}, "set {b} by another route"},
+	}
+}
+
+func emit(cf *vx.CasesFile, st *vx.Stats, rc *rootClasses, set bool, h []ev, tag string) {
+	o, fails, roots, known := runHistory(set, h, rc)
+	if known {
+		st.Count("finding:" + sigDirtyReopen)
+		if len(st.Known) == 0 {
+			st.Known = append(st.Known, sigDirtyReopen)
+		}
+	}
+	terms := make([]string, len(o))
+	for i, x := range o {
+		terms[i] = fmt.Sprintf("mkObs (%s) %s %s", x.out, vx.Z(int64(x.size)), vx.Bool(x.restored))
+	}
+	cf.Add(fmt.Sprintf("mkCase %s %s", vx.ListOf(h, ev.coq), vx.List(terms)))
+	parts := make([]string, len(h))
+	mut := 0
+	for i, e := range h {
+		parts[i] = e.coq()
+		st.Count("op:" + e.Op)
+		if e.Op == "set" || e.Op == "add" || e.Op == "delete" {
+			mut++
+		}
+	}
+	fl := "map"
+	if set {
+		fl = "set"
+	}
+	st.Count("flavour:" + fl)
+	st.Case(fl+":"+strings.Join(parts, ";"), mut >= 3 && roots >= 1)
+	st.CaseIndex = append(st.CaseIndex, map[string]any{"tag": tag, "set": set, "history": h})
+	st.Sample(map[string]any{"flavour": fl, "history": parts, "observed": terms}, 2)
+	if len(fails) > 0 {
+		st.Fail(map[string]any{"sig": "", "set": set, "history": h, "why": fails})
+	}
+}
+
 func main() {
 	if len(os.Args) > 1 && os.Args[1] == "probe" {
 		probe()
+		return
+	}
+	if len(os.Args) < 2 || os.Args[1] != "hist" {
+		vx.Die("usage: hx-c09 hist --n N --len L --seed S --out cases.v --stats stats.json [--replay file]")
+	}
+	fs := flag.NewFlagSet("hist", flag.ExitOnError)
+	n := fs.Int("n", 300, "")
+	maxLen := fs.Int("len", 40, "")
+	seed := fs.Uint64("seed", 1, "")
+	out := fs.String("out", "cases.v", "")
+	stats := fs.String("stats", "stats.json", "")
+	replay := fs.String("replay", "", "JSON file with {set, history} to run alone")
+	_ = fs.Parse(os.Args[2:])
+	initPool()
+	r := vx.NewRng(*seed)
+	st := vx.NewStats("histories of Set/Add/Delete/Commit/reopen with Get/Has/Stream/Root/WasRestored reads on ads.Map and ads.Set over one mapdb, <= 6 keys per history from a pool of 9 (empty key, prefix-related keys, keys whose SHA-256 paths share 8 and 16 leading bits), values nil/empty/short/33 bytes; distinct = distinct (flavour, history); non-trivial = at least 3 Set/Add/Delete calls and at least one Root observation")
+	cf := &vx.CasesFile{
+		Header: "From Coq Require Import NArith ZArith List PArith.\nFrom Verif.C09_ADS Require Import Model Corr.\nImport ListNotations.\nOpen Scope N_scope.\n",
+		Type:   "case",
+		Footer: "Definition M := Eval vm_compute in mismatches cases.\nPrint M.\n",
+	}
+	rc := newRootClasses()
+	if *replay != "" {
+		var c struct {
+			Set     bool `json:"set"`
+			History []ev `json:"history"`
+		}
+		b, err := os.ReadFile(*replay)
+		if err != nil {
+			vx.Die("%v", err)
+		}
+		if err := json.Unmarshal(b, &c); err != nil {
+			vx.Die("%v", err)
+		}
+		emit(cf, st, rc, c.Set, c.History, "replay")
+	} else {
+		for _, d := range directed() {
+			emit(cf, st, rc, d.set, d.h, "directed: "+d.tag)
+		}
+		for cf.Len() < *n {
+			set := r.Chance(1, 3)
+			emit(cf, st, rc, set, genHistory(r.Fork(), set, 3+r.Intn(*maxLen)), "random")
+		}
+	}
+	st.Extra["root_classes"] = len(rc.ids)
+	st.Extra["distinct_contents_with_root"] = len(rc.byContents)
+	st.Extra["crafted_keys"] = poolNote
+	if err := cf.Write(*out); err != nil {
+		vx.Die("%v", err)
+	}
+	if err := st.Write(*stats); err != nil {
+		vx.Die("%v", err)
 	}
 }
